@@ -133,4 +133,15 @@ CLAIMS['C06'] = dict(
           'transitivity follow from the lexicographic structure and are not mechanised separately; hash equality for equal strings follows from '
           'hash being a function of the bytes [0,size) only (C04/C20 effects)'),
     technique='static analysis: abstract interpretation with opaque comparator symbol and full-range sizes, exhaustive sign-case analysis, SSA taint rule')
+CLAIMS['C12'] = dict(
+    level='proof',
+    text=('All 12 signed integer printers (from_int cores, ST::format\'s numeric renderer, string_stream <<) are interpreted with the value '
+          'free over its whole type: the term handed to uint_formatter::format equals |value| on every path, no signed operation on the '
+          'way can overflow (witness: the most negative value) and no abs() family call exists; the digit loop of every uint_formatter<U> '
+          'is summarised per iteration (value := value / radix, one unit stored backwards, from index digits of a digits+1 buffer) which '
+          'with the halving lemma bounds it by the width of U; the 7 parsing members are interpreted against the ok / full_match table '
+          'with the strto* end position symbolic (embedded NULs included).'),
+    note=('relative to: clang-14 lowering, STIR, the strto* model and the lemma that division by a radix >= 2 reaches 0 within bit-width '
+          'steps; bases 2..36; what strto* returns and that the quotient/remainder sequence spells the canonical digits is libc / arithmetic'),
+    technique='static analysis: abstract interpretation with full-range integers (overflow events, magnitude term vs oracle), loop step summary + arithmetic lemma')
 NOT_APPLICABLE = {}
